@@ -3,6 +3,7 @@
 package opdrv
 
 import (
+	"sync/atomic"
 	"encoding/json"
 	"fmt"
 	"io"
@@ -33,6 +34,7 @@ type WorldJSON struct {
 		URIs       []string `json:"uris"`
 		PostLogout []string `json:"postLogout"`
 		AT         string   `json:"at"`
+		Assert     bool     `json:"assert"`
 	} `json:"clients"`
 	Users []string `json:"users"`
 	URIs  []string `json:"uris"`
@@ -101,7 +103,7 @@ func BuildRegs(w *WorldJSON) []*modelstore.ClientReg {
 	for _, id := range ids {
 		c := w.Clients[id]
 		r := &modelstore.ClientReg{ID: id, Auth: c.Auth, App: c.App, Grants: c.Grants, RTypes: c.RTypes,
-			ATType: c.AT, IDTLifetime: time.Hour, ExtraScopes: []string{"api"}}
+			ATType: c.AT, IDTLifetime: time.Hour, ExtraScopes: []string{"api"}, Assertion: c.Assert}
 		if c.Auth == "basic" || c.Auth == "post" {
 			r.Secret = Secret(id)
 		}
@@ -206,11 +208,18 @@ func BuildProvider(store *modelstore.Store, cfg Cfg, extra ...op.Option) (http.H
 	return p, p, nil
 }
 
+var keyPoolSeq atomic.Int64
+
+// SigningKeyFor returns a signing key for alg. Successive providers of one process get DIFFERENT key material under the SAME
+// key id (a pool of three keys per algorithm): a multi-tenant process whose tenants happen to use equal key ids.
 func SigningKeyFor(alg string) *modelstore.SignKey {
 	if alg == "" {
 		alg = "ES256"
 	}
-	return modelstore.GenKey("op-"+strings.ToLower(alg), jose.SignatureAlgorithm(alg))
+	i := keyPoolSeq.Add(1) % 3
+	k := *modelstore.GenKey(fmt.Sprintf("op-%s-pool%d", strings.ToLower(alg), i), jose.SignatureAlgorithm(alg))
+	k.KID = "op-" + strings.ToLower(alg)
+	return &k
 }
 
 func must(err error) {
